@@ -52,6 +52,7 @@ func cmdDev(args []string) {
 	dump := fs.Bool("dump", false, "print failing scripts' paths")
 	only := fs.String("kind", "", "only obligations of this kind")
 	nosolve := fs.Bool("nosolve", false, "generate only")
+	refineOnly := fs.Bool("refine", false, "verify implementing methods against their interface contracts")
 	fs.Parse(args)
 	p, w, err := loadAll(*repo)
 	if err != nil {
@@ -80,6 +81,10 @@ func cmdDev(args []string) {
 				}
 			}
 			if !match || fn.Parent() != nil {
+				continue
+			}
+			if ref := w.Refines[funcKey(fn)]; ref != nil && *refineOnly {
+				results = append(results, genRefine(p, w, ref))
 				continue
 			}
 			results = append(results, genFunc(p, w, fn, w.contractFor(fn), nil))
